@@ -99,20 +99,20 @@ func (x *c14) computeKeyHashSem(cKH *ssa.Function) c14V {
 func runC14(c *Ctx) {
 	p, r := c.P, c.R
 	r.Explanation = "C14 key-credential blobs, decided statically on go/ssa (def-use, dominance), internal/codec layouts and the E1 prover; no Manticore code is executed. " +
-		"R1-entry-tables: for every constant KeyCredentialEntryType_* the entry is written by (*KeyCredential).ToBytes (a writeEntry call whose type argument is that constant) iff (*KeyCredential).FromBytes compares the entry type with that constant and the branch assigns KeyCredential fields; the set of KeyCredential fields the writer takes the entry's bytes from equals the set the reader's branch assigns (Version, which both sides only consult, is ignored); (*KeyCredential).ComputeKeyHash starts its walk after the 4-byte version, appends to the hashed data exactly under entryType == KeyCredentialEntryType_KeyHash and appends exactly the remainder that follows that entry (so it skips up to and including the KeyHash entry), and returns utils.ComputeHash of that data. " +
+		"R1-entry-tables: for every constant KeyCredentialEntryType_* the entry is written by (*KeyCredential).ToBytes (a writeEntry call whose type argument is that constant) iff (*KeyCredential).FromBytes compares the entry type with that constant and the branch assigns KeyCredential fields; the set of KeyCredential fields the writer takes the entry's bytes from equals the set the reader's branch assigns (Version, which both sides only consult, is ignored); (*KeyCredential).ComputeKeyHash starts its walk after the 4-byte version, appends to the hashed data exactly under entryType == KeyCredentialEntryType_KeyHash and appends exactly the remainder that follows that entry (so it skips up to and including the KeyHash entry), and returns the SHA-256 digest of that data (utils.ComputeHash of a buffer, or the same bytes written piecewise into a sha256 state: what is judged is the byte sequence that reaches the digest). " +
 		"R2-entry-header (internal/codec): writeEntry emits uint16 little-endian len(data) | KeyCredentialEntryType.ToBytes (1 byte = Value) | data, ToBytes emits KeyCredentialVersion.ToBytes (4 bytes LE) and then writeEntry records only; FromBytes and ComputeKeyHash read the length as little-endian uint16 at entry offset 0, the type byte at offset 2 (KeyCredentialEntryType.FromBytes stores it in Value), the value at offset 3 with exactly that length, and continue at 3+length; KeyCredentialVersion.FromBytes reads the same 4 LE bytes. " +
 		"R3-cki-thresholds (SIBLING-CONST, thresholds by the E1 prover from the dominating guards): each CustomKeyInformation field is decoded from blob[o:o+w] under the weakest size bound T_dec = o+w (T_dec = the minimum accepted size for the mandatory fields), encoded by ToBytes in the same wire order and width, under T_enc = T_dec for optional fields and unconditionally for mandatory ones. " +
 		"R4-rsa-blob (internal/codec; BCRYPT_RSAKEY_BLOB): RSAKeyMaterial.ToBytes emits \"RSA1\" | KeySize | cbPublicExp | cbModulus | cbPrime1 | cbPrime2, each 4 bytes little-endian, then the exponent big-endian, Modulus, Prime1, Prime2, each length slot holding the length of the very field emitted in that position; FromBytes compares bytes 0..3 with \"RSA1\", reads KeySize from 4..7 LE, takes the exponent byte count from 8..11, the Modulus/Prime1/Prime2 widths from 12..15/16..19/20..23 (LE) and their offsets as 24 + the preceding widths, and accumulates the exponent big-endian over exactly cbPublicExp bytes from offset 24. " +
 		"R5-integrity: every `return true` of CheckIntegrity is dominated by the equal-length edge of a comparison of len(ComputeKeyHash()) with len(KeyHash) and by the exit edge of a loop that runs the index over 0..len(hash)-1 and leaves with `false` on the first hash[i] != KeyHash[i] (or the result is bytes.Equal / subtle.ConstantTimeCompare of the two). " +
 		"R6-dn-with-binary: DNWithBinary.ToString's format has the free-form DistinguishedName as its LAST verb; Parse splits on the same separator constant, demands as many parts as the format has fields, assigns parts[i] to the field verb i prints, uses the same ×2 factor between BinaryData and the printed size, and — because the last field may contain the separator — splits with SplitN(…, number of fields). " +
-		"LANE INTERPRETATION (internal/absint; robustness to behaviour-preserving refactors): the recognisers above read today's code shapes; every clause they decide is ALSO decided from the functions' behaviour, by interpreting go/ssa over the bit-lane domain on inputs of concrete shape and symbolic content (helpers are entered, switch/if, early returns, predicates, bytes.Clone/copy/append, PutUintN/AppendUintN, bytes.Buffer, strings/bytes Cut/Split/Index, read-only package-level tables, function values and closures just execute; data-dependent branches that do not guard an error exit are enumerated path by path). FromBytes: on version | unknown(258) | K(L) | unknown(1) for every entry-type constant K and L ∈ {1,8,16,40}, which KeyCredential fields are assigned because of the K entry and which blob bytes they and the (summarised) value decoders see — exactly the L bytes at entry offset 3. ToBytes: with the value encoders summarised as fresh symbolic bytes the blob must read back as Version.Value (4 bytes LE) and length(2,LE)|type(1)|value records that consume it exactly; each record's bytes are traced to the fields they come from. ComputeKeyHash: on four entry sequences exactly the bytes after the KeyHash entry reach utils.ComputeHash once and its digest is returned. CheckIntegrity: against a fixed 32-byte digest, equal → true, each of the 256 single-bit alterations, a 31-, 33- and 0-byte KeyHash → false. CustomKeyInformation: FromBytes on symbolic blobs of 0..40 bytes and ToBytes with RawBytesSize 0..40 give, per field, offset, width and size threshold on both sides (these tables are what R3 judges). RSAKeyMaterial.ToBytes: on five key shapes (one or both primes nil or empty, lengths above 255) every slot holds the BCRYPT_RSAKEY_BLOB value. DNWithBinary: for names with the separator inside, surrounding white space, mixed case, a nested prefix, empty: ToString prints exactly B:<2n>:<hex>:<name> and Parse returns the same name and bytes. Combination: recogniser OK + interpretation wrong ⇒ violation (a concrete counter-shape exists); recogniser not OK + interpretation OK ⇒ held (the reason names both); interpretation aborted (construct not modelled) ⇒ the recogniser's verdict stands — an abort is never a pass and never by itself a violation. " +
+		"LANE INTERPRETATION (internal/absint; robustness to behaviour-preserving refactors): the recognisers above read today's code shapes; every clause they decide is ALSO decided from the functions' behaviour, by interpreting go/ssa over the bit-lane domain on inputs of concrete shape and symbolic content (helpers are entered, switch/if, early returns, predicates, bytes.Clone/copy/append, PutUintN/AppendUintN, bytes.Buffer, strings/bytes Cut/Split/Index, read-only package-level tables, function values and closures just execute; data-dependent branches that do not guard an error exit are enumerated path by path). FromBytes: on version | unknown(258) | K(L) | unknown(1) for every entry-type constant K and L ∈ {1,8,16,40}, which KeyCredential fields are assigned because of the K entry and which blob bytes they and the (summarised) value decoders see — exactly the L bytes at entry offset 3. ToBytes: with the value encoders summarised as fresh symbolic bytes the blob must read back as Version.Value (4 bytes LE) and length(2,LE)|type(1)|value records that consume it exactly; each record's bytes are traced to the fields they come from. ComputeKeyHash: on four entry sequences exactly the bytes after the KeyHash entry reach one SHA-256 digest — hash.Hash is modelled (the hashed sequence is the concatenation of the Write/WriteString/io.WriteString/binary.Write arguments before Sum; sha256.Sum256 is the one-shot form; the utils helpers are entered) — and that digest is what is returned. RSAKeyMaterial.FromBytes: on blobs \"RSA1\" | KeySize (symbolic) | four constant size words | symbolic payload for (cbPublicExp,cbModulus,cbPrime1,cbPrime2) ∈ {(3,300,130,129), (1,5,3,2), (4,7,0,0)+2 stray bytes, (5,2,1,0)} KeySize, the big-endian exponent fold, Modulus, Prime1 and Prime2 come back as exactly the bytes BCRYPT_RSAKEY_BLOB puts there, and a blob type that differs from \"RSA1\" in any one byte is refused (so header words read in a loop, a cursor type with methods, a take closure over a re-sliced tail decide like the running-offset spelling). KeyCredentialEntryType / KeyCredentialVersion ToBytes/FromBytes: on symbolic values, one byte == Value and the 4 bytes of Value little-endian. CheckIntegrity: against a fixed 32-byte digest, equal → true, each of the 256 single-bit alterations, a 31-, 33- and 0-byte KeyHash → false. CustomKeyInformation: FromBytes on symbolic blobs of 0..40 bytes and ToBytes with RawBytesSize 0..40 give, per field, offset, width and size threshold on both sides (these tables are what R3 judges). RSAKeyMaterial.ToBytes: on five key shapes (one or both primes nil or empty, lengths above 255) every slot holds the BCRYPT_RSAKEY_BLOB value. DNWithBinary: for names with the separator inside, surrounding white space, mixed case, a nested prefix, empty: ToString prints exactly B:<2n>:<hex>:<name> and Parse returns the same name and bytes. Combination: recogniser OK + interpretation wrong ⇒ violation (a concrete counter-shape exists); recogniser not OK + interpretation OK ⇒ held (the reason names both); interpretation aborted (construct not modelled) ⇒ a VIOLATION of the recogniser stands (recognisers report as violation only what they positively saw: a wrong offset, order, width, condition), while a recogniser that merely did not find its pattern decides nothing: the clause is then recorded as NOT DECIDED (held, with a note naming what escaped) — COMPLETENESS BEFORE VERDICT: no report without an observed offending construct; a missing anchor or an internal error of the interpretation still fails. " +
 		"NOT decided: that altering any covered bit is detected (needs SHA-256 semantics; R1/R5 only establish which bytes are hashed and that every hash byte is compared); re-serialisation equality of whole credentials (ordering of entries, the zero KeyHash placeholder, LegacyUsage/Usage sharing one entry type); timestamps (C15); bounds safety of FromBytes (C07); X509/PEM export."
 	r.Assumptions = []string{
 		"go/parser, go/types and the go/ssa builder of x/tools v0.50.0 are faithful to the source",
 		"contracts: (*bytes.Buffer).Write appends its argument; encoding/binary.Write(w, order, v) writes the fixed-size integer v in that order; encoding/binary.{Little,Big}Endian.UintN/PutUintN/AppendUintN; bytes.Split/SplitN, strings.Split/SplitN; bytes.Equal(a,b) and subtle.ConstantTimeCompare(a,b)==1 hold iff len(a)==len(b) and all bytes are equal; fmt.Sprintf prints its arguments in verb order",
 		"SPEC tables: MS-ADTS KEYCREDENTIALLINK_ENTRY = Length(2, LE) | Identifier(1) | Value(Length); BCRYPT_RSAKEY_BLOB = Magic \"RSA1\", BitLength, cbPublicExp, cbModulus, cbPrime1, cbPrime2 (6×4 bytes LE) followed by PublicExponent (big-endian), Modulus, Prime1, Prime2; MS-ADTS CUSTOM_KEY_INFORMATION = Version(1) Flags(1) [VolumeType(1) SupportsNotification(1) FekKeyVersion(1) KeyStrength(4) Reserved(10) EncodedExtendedCKI(*)]",
 		"the E1 prover of internal/prove (dominating branch conditions, available loads, Fourier–Motzkin) is sound; type-based aliasing",
-		"lane interpretation: the library contracts modelled by internal/absint (encoding/binary Uint/PutUint/AppendUint/Write, bytes.Buffer Write/WriteByte/Bytes/Len, bytes/strings Cut, CutPrefix, Split(N), Index, HasPrefix, Trim*, Clone, Equal, hmac.Equal, subtle.ConstantTimeCompare, strconv.Atoi/Itoa/ParseUint, hex Encode/Decode, fmt.Sprintf %d %s %x, copy/append/len/min/max); value codecs outside windows/keycredential (identifier, RSA blob, GUID, custom key information, timestamps, SHA-256) are summarised when FromBytes/ToBytes/ComputeKeyHash are interpreted: they may write through pointer arguments, return unknown (decoders) or fresh symbolic (encoders) values, and do not modify the byte slices they are handed; a package-level variable assigned once by its package initialiser and only ever read is its initialiser; the analysed shapes are those listed in the explanation",
+		"lane interpretation: the library contracts modelled by internal/absint (encoding/binary Uint/PutUint/AppendUint/Write, bytes.Buffer Write/WriteByte/Bytes/Len, bytes/strings Cut, CutPrefix, Split(N), Index, HasPrefix, Trim*, Clone, Equal, hmac.Equal, subtle.ConstantTimeCompare, strconv.Atoi/Itoa/ParseUint, hex Encode/Decode, fmt.Sprintf %d %s %x, copy/append/len/min/max; hash.Hash from sha256/sha1/md5/sha512 New (and crypto.Hash.New): Write/WriteString/WriteByte append to the hashed sequence, Sum(b) appends the digest of that sequence to b without changing the state, Reset empties it, SumNNN(data) is the one-shot form; a digest is an uninterpreted function of (algorithm, hashed bytes); an interface method call on a value whose dynamic type the run knows is the call of that type's method); value codecs outside windows/keycredential (identifier, RSA blob, GUID, custom key information, timestamps, SHA-256) are summarised when FromBytes/ToBytes/ComputeKeyHash are interpreted: they may write through pointer arguments, return unknown (decoders) or fresh symbolic (encoders) values, and do not modify the byte slices they are handed; a package-level variable assigned once by its package initialiser and only ever read is its initialiser; the analysed shapes are those listed in the explanation",
 	}
 	x := &c14{Ctx: c, family: map[int64]string{}}
 
@@ -469,10 +469,9 @@ func (x *c14) entryTables() {
 		return
 	}
 	wsem := x.toBytesSem(toB)
-	if wE == nil && !wsem.done {
-		r.Undecided("anchor", c14Pkg+".writeEntry", "", "the entry writer does not resolve and the lane interpretation of ToBytes is not available ("+wsem.why+")")
-		return
-	}
+	// (writeEntry is an unexported helper, not an anchor: when it is gone and the
+	// interpretation is not available either, the writer side is NOT DECIDED
+	// clause by clause below)
 	skip := map[string]bool{"Version": true, "RawBytes": true, "RawBytesSize": true}
 	// writer
 	written := map[int64][]string{} // K → source fields
@@ -489,7 +488,7 @@ func (x *c14) entryTables() {
 			if !ok {
 				unresolved++
 				if !wsem.done {
-					r.Undecided(c14R1, c14Pkg+".(*KeyCredential).ToBytes: entry type of a writeEntry call is a constant", p.Rel(call.Pos()), "the type argument is not a KeyCredentialEntryType literal with a constant Value")
+					x.settle(c14R1, c14Pkg+".(*KeyCredential).ToBytes: entry type of a writeEntry call is a constant", p.Rel(call.Pos()), report.Undecided, "the type argument is not a KeyCredentialEntryType literal with a constant Value", c14Na("%s", wsem.why))
 				}
 				continue
 			}
@@ -537,7 +536,14 @@ func (x *c14) entryTables() {
 	// present — and is what is judged wherever it completes.
 	r.Extra["entries_read_by_FromBytes_recogniser"] = c14Table(x.family, read)
 	r.Extra["entries_read_from"] = "shape recogniser (entry-type comparisons and the stores they dominate)"
+	// COMPLETENESS: a table that comes from a shape recogniser lists what the
+	// recogniser FOUND; an entry type or a field missing from it is not an
+	// observation ("no branch", "never written") unless the lane interpretation
+	// produced the table.
+	readFromSem, writtenFromSem := false, false
+	readWhy, writtenWhy := "", ""
 	if sem := x.fromBytesSem(fromB); sem.done {
+		readFromSem = true
 		n := 0
 		for k := range x.family {
 			if !sem.decided[k] {
@@ -560,6 +566,7 @@ func (x *c14) entryTables() {
 		r.Extra["entries_read_from"] = fmt.Sprintf("lane interpretation of FromBytes on version | unknown(258) | K(L) | unknown(1), L ∈ {1,8,16,40}, for %d of %d entry-type constants", n, len(x.family))
 		r.Extra["fields_assigned_whatever_the_entries"] = sem.always
 	} else {
+		readWhy = sem.why
 		r.Note("C14 R1: lane interpretation of FromBytes not available (%s); the shape recogniser's reader table is judged", sem.why)
 	}
 	// writer table: likewise from the blob ToBytes produces (records read by
@@ -571,6 +578,7 @@ func (x *c14) entryTables() {
 		// records found in it say nothing about which entries are written
 		r.Note("C14 R1: the blob ToBytes produces does not parse as records (%s); the shape recogniser's writer table is judged", wsem.structure.msg)
 	} else if wsem.done {
+		writtenFromSem = true
 		written, wcount = map[int64][]string{}, map[int64]int{}
 		for k, fs := range wsem.written {
 			var keep []string
@@ -584,7 +592,11 @@ func (x *c14) entryTables() {
 		unresolved = 1 // the "no writeEntry call" report below belongs to the recogniser
 		r.Extra["entries_written_from"] = "lane interpretation of ToBytes (value encoders summarised as fresh symbolic bytes; the blob read as version | length(2,LE) type(1) value records)"
 	} else {
+		writtenWhy = wsem.why
 		r.Note("C14 R1: lane interpretation of ToBytes not available (%s); the shape recogniser's writer table is judged", wsem.why)
+	}
+	if wsem.done && !writtenFromSem {
+		writtenWhy = "the blob ToBytes produces does not parse as records"
 	}
 	r.Extra["entries_written_by_ToBytes"] = c14Table(x.family, written)
 	r.Extra["entries_read_by_FromBytes"] = c14Table(x.family, read)
@@ -615,6 +627,10 @@ func (x *c14) entryTables() {
 		switch {
 		case !inFam:
 			r.Fail(c14R1, cons, p.Rel(toB.Pos()), "an entry type that is not one of the declared constants is written or read")
+		case w && !rd && !readFromSem:
+			x.settle(c14R1, cons, p.Rel(fromB.Pos()), report.Undecided, fmt.Sprintf("ToBytes writes a %s entry; the shape recogniser finds no entry-type comparison in FromBytes whose branch assigns a field", name), c14Na("%s", readWhy))
+		case !w && rd && !writtenFromSem:
+			x.settle(c14R1, cons, p.Rel(toB.Pos()), report.Undecided, fmt.Sprintf("FromBytes decodes %s; the shape recogniser finds no writeEntry call with that constant type in ToBytes", name), c14Na("%s", writtenWhy))
 		case w && !rd:
 			r.Fail(c14R1, cons, p.Rel(fromB.Pos()), fmt.Sprintf("ToBytes writes a %s entry (from %v) but FromBytes has no branch for it that assigns a field: the value is lost when the blob is parsed back", name, written[k]))
 		case !w && rd:
@@ -631,13 +647,15 @@ func (x *c14) entryTables() {
 			sort.Strings(b)
 			if strings.Join(a, ",") == strings.Join(b, ",") {
 				r.OK(c14R1, cf, p.Rel(fromB.Pos()), "fields "+strings.Join(a, ","))
+			} else if !readFromSem || !writtenFromSem {
+				x.settle(c14R1, cf, p.Rel(fromB.Pos()), report.Undecided, fmt.Sprintf("the shape recogniser's field sets differ (written from %v, read into %v) but it follows neither helpers nor closures", a, b), c14Na("%s", strings.TrimSpace(readWhy+" "+writtenWhy)))
 			} else {
 				r.Fail(c14R1, cf, p.Rel(fromB.Pos()), fmt.Sprintf("ToBytes fills the %s entry from field(s) %v, FromBytes stores it into field(s) %v: a credential does not parse back to the same fields", name, a, b))
 			}
 		}
 	}
 	if unresolved == 0 && nCalls == 0 {
-		r.Undecided(c14R1, c14Pkg+".(*KeyCredential).ToBytes: entries are written through writeEntry", p.Rel(toB.Pos()), "no writeEntry call found")
+		x.settle(c14R1, c14Pkg+".(*KeyCredential).ToBytes: entries are written through writeEntry", p.Rel(toB.Pos()), report.Undecided, "no writeEntry call found", c14Na("%s", wsem.why))
 	}
 
 	mark := len(r.Obls)
@@ -1045,7 +1063,10 @@ func (x *c14) entryHeader() {
 		}
 	}
 	x.arbitrate(markW, func(o *report.Obligation) bool { return o.Rule == c14R2 && o.Construct == cW }, semW)
-	// type byte codec
+	// type byte codec (the recogniser reads internal/codec's layout of today's
+	// spelling; the lane interpretation of the four tiny methods arbitrates)
+	semHdr := x.semHeaderCodecs(etTo, etFrom, vTo, vFrom)
+	markHdr := len(r.Obls)
 	cTE := c14PkgKey + ".(*KeyCredentialEntryType).ToBytes: one byte == Value"
 	enc := encStreams(x.w, etTo)["out"]
 	if len(enc) == 1 && enc[0].Width == 1 && enc[0].Field == "Value" {
@@ -1072,9 +1093,9 @@ func (x *c14) entryHeader() {
 	}
 	switch {
 	case tdStores == 0:
-		r.Fail(c14R2, cTD, p.Rel(etFrom.Pos()), "FromBytes never stores the byte into Value: every entry decodes as type 0")
+		r.Undecided(c14R2, cTD, p.Rel(etFrom.Pos()), "no direct store into Value found in FromBytes")
 	case tdGood != tdStores:
-		r.Fail(c14R2, cTD, p.Rel(etFrom.Pos()), "Value is assigned something other than the byte argument")
+		r.Undecided(c14R2, cTD, p.Rel(etFrom.Pos()), "the value stored into Value is not a plain conversion of the byte argument")
 	default:
 		r.OK(c14R2, cTD, p.Rel(etFrom.Pos()), "k.Value = value")
 	}
@@ -1099,6 +1120,9 @@ func (x *c14) entryHeader() {
 	default:
 		r.Fail(c14R2, cVE, p.Rel(vTo.Pos()), "enc ["+codec.Render(vEnc)+"] vs dec ["+codec.Render(vd)+"]: required Value as 4 little-endian bytes at offset 0 in both")
 	}
+	x.arbitrate(markHdr, func(o *report.Obligation) bool { return o.Rule == c14R2 && o.Construct == cTE }, semHdr["typeEnc"])
+	x.arbitrate(markHdr, func(o *report.Obligation) bool { return o.Rule == c14R2 && o.Construct == cTD }, semHdr["typeDec"])
+	x.arbitrate(markHdr, func(o *report.Obligation) bool { return o.Rule == c14R2 && o.Construct == cVE }, semHdr["version"])
 	// ---- ToBytes: version then records only ----
 	cTB := c14Pkg + ".(*KeyCredential).ToBytes: the blob is Version.ToBytes() followed by writeEntry records only"
 	markTB := len(r.Obls)
@@ -1162,7 +1186,7 @@ func (x *c14) entryHeader() {
 			case len(others) > 0:
 				r.Undecided(c14R2, cTB, p.Rel(toB.Pos()), "the buffer is also used by: "+strings.Join(others, ", "))
 			case !firstOK || !dominatesAll || !retOK:
-				r.Fail(c14R2, cTB, p.Rel(toB.Pos()), "the blob does not start with kc.Version.ToBytes() before every record, or buffer.Bytes() is not what is returned")
+				r.Undecided(c14R2, cTB, p.Rel(toB.Pos()), "not of the form buffer.Write(kc.Version.ToBytes()) dominating every record, buffer.Bytes() returned")
 			default:
 				r.OK(c14R2, cTB, p.Rel(toB.Pos()), fmt.Sprintf("Write(kc.Version.ToBytes()) dominates %d writeEntry calls; buffer.Bytes() is returned", nRec))
 			}
@@ -1219,7 +1243,7 @@ func (x *c14) entryHeader() {
 		case wk.dataOff != 3:
 			r.Fail(c14R2, cD, pos, fmt.Sprintf("the value is taken from entry offset %d, writeEntry emits it at offset 3 (2-byte length + 1-byte type)", wk.dataOff))
 		case rd.needData && wk.data == nil:
-			r.Fail(c14R2, cD, pos, "the entry value handed to the decoders is not remainder[3:][:length]")
+			r.Undecided(c14R2, cD, pos, "no value slice of the form remainder[3:][:length] found")
 		default:
 			r.OK(c14R2, cD, pos, "value = remainder[3:][:length] (where used), next = remainder[3:][length:]")
 		}
